@@ -42,6 +42,8 @@ def run(ctx):
     roundtrip.number_alphabet(r, lexpr)
     casts(ctx.rule("R-CAST", "lossy numeric casts in the number scanner and Number are the reviewed ones"), lexpr)
     digit_accumulation(ctx, lexpr)
+    from . import c01
+    c01.num_text(ctx, lexpr)
     int_boundary(ctx.rule("R-INT-BOUNDARY", "parse_num_tail stores boundary magnitudes as the exact integer: "
                                             "[-2^63, 2^64-1] stays an integer, beyond that a float"), lexpr)
     if ctx.tier == "quick":
